@@ -1,16 +1,20 @@
 ------------------------------ MODULE DomainRules ------------------------------
-(* ruleset/regexp.go: a list of rules, each a regular expression optionally marked  *)
-(* as excluding with '-'.  What a single rule matches is NOT modelled: the table     *)
-(* M[rule][host] is computed by Go's regexp package for each rule on its own         *)
-(* (the oracle the property names) and read here as a constant.                       *)
-EXTENDS Integers, Sequences, FiniteSets, TLC, Json, IOUtils
+(* ruleset/regexp.go (C17): a list of rules, each a regular expression optionally   *)
+(* marked as excluding with '-'.  What a single rule matches is NOT modelled: the    *)
+(* table M[rule][host] is computed by Go's regexp package for each rule ON ITS OWN   *)
+(* (the oracle the property names) and read here as a constant.                      *)
+EXTENDS Integers, Sequences, FiniteSets, TLC, Json, IOUtils, Randomization
+
+CONSTANTS MaxLen,      \* maximal list length
+          Sample       \* 0 = all lists, else all shorter lists + random subset of the longest
 
 M == JsonDeserialize(IOEnv.M_FILE)            \* record: rule -> (record: host -> BOOLEAN)
 Rules == DOMAIN M
 Hosts == DOMAIN M[CHOOSE r \in Rules : TRUE]
 
 Item == [r : Rules, x : BOOLEAN]              \* x = excluding rule ('-' prefix)
-Lists(n) == UNION {[1..k -> Item] : k \in 1..n}
+Lists == IF Sample = 0 THEN UNION {[1..k -> Item] : k \in 1..MaxLen}
+         ELSE UNION {[1..k -> Item] : k \in 1..(MaxLen - 1)} \cup RandomSubset(Sample, [1..MaxLen -> Item])
 
 Inc(l) == {l[i].r : i \in {j \in 1..Len(l) : ~l[j].x}}
 Exc(l) == {l[i].r : i \in {j \in 1..Len(l) : l[j].x}}
@@ -18,13 +22,19 @@ Valid(l) == Inc(l) # {}                       \* NewRegexpMatcher: at least one 
 Match(l, h) == (\E r \in Inc(l) : M[r][h]) /\ ~(\E r \in Exc(l) : M[r][h])
 Inverse(l, h) == ~Match(l, h)
 
-VARIABLES list, host
-Init == list \in Lists(3) /\ Valid(list) /\ host \in Hosts
-Next == FALSE /\ UNCHANGED <<list, host>>
-\* meta-property of the semantics: order and repetition of rules are irrelevant
+VARIABLES list
+Init == list \in Lists /\ Valid(list)
+Next == FALSE /\ UNCHANGED list
+\* meta-properties of the semantics: order and repetition of rules are irrelevant,
+\* an excluding rule can only remove hosts, an including rule can only add hosts
 Perm(l, p) == [i \in 1..Len(l) |-> l[p[i]]]
 OrderIrrelevant ==
   \A p \in {q \in [1..Len(list) -> 1..Len(list)] : \A i, j \in 1..Len(list) : i # j => q[i] # q[j]} :
-     Match(Perm(list, p), host) = Match(list, host)
-Emit == PrintT(ToJson([list |-> list, host |-> host, match |-> Match(list, host)]))
+     \A h \in Hosts : Match(Perm(list, p), h) = Match(list, h)
+Monotone ==
+  \A it \in Item : \A h \in Hosts :
+     LET l2 == Append(list, it) IN
+       IF it.x THEN Match(l2, h) => Match(list, h) ELSE Match(list, h) => Match(l2, h)
+InverseIsNegation == \A h \in Hosts : Inverse(list, h) = ~Match(list, h)
+Emit == PrintT(ToJson([list |-> list, match |-> [h \in Hosts |-> Match(list, h)]]))
 ==============================================================================
